@@ -7,7 +7,9 @@ A world is a JSON-able dict:
 """
 from __future__ import annotations
 
+import json
 import logging
+import zlib
 
 from antismash.common.hmm_rule_parser import cluster_prediction as CP
 from antismash.common.hmm_rule_parser import rule_parser as RP
@@ -120,6 +122,18 @@ def gen_world(rng, circular=None, simple_rules: float = 0.6, max_genes: int = 12
         hs = {p: rng.choice([10, 20, 30, 50]) for p in PROFILES if rng.random() < density}
         if hs:
             hits[name] = hs
+    # a second gene over the origin with the hits of the first (both anchor whatever either anchors): genes over the
+    # origin all overlap there. Added to every other world that has one, chosen from the world itself (no draw).
+    crossers = [name for name, gene in genes.items() if len(gene["loc"]["parts"]) == 2 and gene["loc"]["parts"][0][1] == length
+                and gene["loc"]["parts"][1][0] == 0 and name in hits]
+    if circular and crossers and zlib.crc32(json.dumps(genes, sort_keys=True).encode()) % 2 == 0:
+        first = genes[crossers[0]]["loc"]["parts"]
+        pre = (length - first[0][0]) // 2 + 50
+        post = first[1][1] + 150
+        parts = [[length - pre, length], [0, post]]
+        if str(parts) not in used and post < length - pre:
+            genes["x0"] = {"loc": {"parts": parts, "strand": -genes[crossers[0]]["loc"]["strand"]}}
+            hits["x0"] = dict(hits[crossers[0]])
     mult = [1.0, 1.0]
     if allow_multipliers and rng.random() < 0.15:
         mult = [rng.choice([0.5, 1.5, 1.0]), rng.choice([0.1, 0.5, 2.0])]
